@@ -582,4 +582,119 @@ theorem legacy_literal_replaces_every_occurrence :
     mapDir "in/".toList "out/".toList "in/main/x".toList = "out/main/x".toList := by
   decide
 
+/-! ## 7. File discovery of the two command line tools (`main`)
+
+"…over a directory … all directory trees … in every order and nesting": which files of the tree the
+tools take up.  The tree is any list of entries `(directory, name)`; nothing is assumed about the
+names of the directories — the directory given on the command line, the directories above and
+below it may be called like the tools' own output directories (`odmlconv_…`, `odmlrdf_…`). -/
+
+/-- A name `main` looks for: it ends in `.odml`, `.xml`, `.json` or `.yaml`. -/
+def Supported (n : List Char) : Prop := ∃ ext ∈ mainExts, endsWith n ext = true
+
+/-- Every entry of the tree with a supported ending — at the top, or anywhere with `-r` — is in the
+    list `main` hands to its loop, whatever the directories are called. -/
+theorem discover_complete (root : Path) (recursive : Bool) (tree : List (Path × List Char))
+    (e : Path × List Char) (he : e ∈ tree) (hs : Supported e.2)
+    (hd : recursive = true ∨ e.1 = root) :
+    pyJoin e.1 e.2 ∈ discover root recursive tree := by
+  obtain ⟨ext, hext, hends⟩ := hs
+  simp only [discover, List.mem_flatMap]
+  refine ⟨ext, hext, ?_⟩
+  simp only [globExt, List.mem_map, List.mem_filter]
+  refine ⟨e, ⟨he, ?_⟩, rfl⟩
+  rcases hd with h | h <;> simp [hends, h]
+
+/-- … and nothing else is. -/
+theorem discover_sound (root : Path) (recursive : Bool) (tree : List (Path × List Char))
+    (p : Path) (hp : p ∈ discover root recursive tree) :
+    ∃ e ∈ tree, p = pyJoin e.1 e.2 ∧ Supported e.2 ∧ (recursive = true ∨ e.1 = root) := by
+  simp only [discover, List.mem_flatMap, globExt, List.mem_map, List.mem_filter] at hp
+  obtain ⟨ext, hext, e, ⟨he, hcond⟩, rfl⟩ := hp
+  simp only [Bool.and_eq_true, Bool.or_eq_true, beq_iff_eq] at hcond
+  exact ⟨e, he, rfl, ⟨ext, hext, hcond.1⟩, hcond.2⟩
+
+/-- Distinct paths in the tree ⇒ no file is taken up twice (no name ends in two of the endings). -/
+theorem discover_nodup (root : Path) (recursive : Bool) (tree : List (Path × List Char))
+    (nd : (tree.map fun e => pyJoin e.1 e.2).Nodup) : (discover root recursive tree).Nodup := by
+  have g := globExt_nodup root recursive tree nd
+  have dj := globExt_disjoint root recursive tree nd
+  simp only [discover, mainExts, List.flatMap_cons, List.flatMap_nil, List.append_nil]
+  refine List.nodup_append.2 ⟨g _, List.nodup_append.2 ⟨g _, List.nodup_append.2 ⟨g _, g _, ?_⟩, ?_⟩, ?_⟩
+  · intro x hx y hy hxy; subst hxy
+    exact dj ".json".toList ".yaml".toList (by decide) (by decide) x hx hy
+  · intro x hx y hy hxy; subst hxy
+    rcases List.mem_append.1 hy with h | h
+    · exact dj ".xml".toList ".json".toList (by decide) (by decide) x hx h
+    · exact dj ".xml".toList ".yaml".toList (by decide) (by decide) x hx h
+  · intro x hx y hy hxy; subst hxy
+    rcases List.mem_append.1 hy with h | h
+    · exact dj ".odml".toList ".xml".toList (by decide) (by decide) x hx h
+    · rcases List.mem_append.1 h with h | h
+      · exact dj ".odml".toList ".json".toList (by decide) (by decide) x hx h
+      · exact dj ".odml".toList ".yaml".toList (by decide) (by decide) x hx h
+
+/-- odmlconvert as a whole (`main` after `mkdtemp`): for every tree of distinct paths and distinct
+    base names, every directory naming and both settings of `-r`, a file of the tree with a
+    supported ending that is convertible alone has its output after the run. -/
+theorem main_convert_file_gets_output (T : Tool) (outDir root : Path) (recursive : Bool)
+    (tree : List (Path × List Char)) (fs : Fs)
+    (nd : (tree.map fun e => pyJoin e.1 e.2).Nodup) (hfresh : Fresh fs outDir)
+    (hex : ∀ g ∈ discover root recursive tree, fs g ≠ none)
+    (e : Path × List Char) (he : e ∈ tree) (hs : Supported e.2) (hd : recursive = true ∨ e.1 = root)
+    (hstem : ∀ g ∈ discover root recursive tree, g ≠ pyJoin e.1 e.2 → stem g ≠ stem (pyJoin e.1 e.2))
+    (d : Bytes) (hl : T.loads (pyJoin e.1 e.2) (fs (pyJoin e.1 e.2)) = false)
+    (hc : T.convert (pyJoin e.1 e.2) (fs (pyJoin e.1 e.2)) = .ok (some d)) :
+    (mainConvert T outDir root recursive tree fs).1 (convOut outDir (pyJoin e.1 e.2)) = some d :=
+  convertible_file_gets_output T outDir _ fs (discover_nodup root recursive tree nd) hfresh hex _
+    (discover_complete root recursive tree e he hs hd) hstem d hl hc
+
+/-- odmltordf as a whole: a current-version file of the tree that exports alone to `d` has
+    `<rdf dir>/<stem>.rdf = d` after the run … -/
+theorem main_rdf_file_gets_rdf (T : Tool) (outDir r root : Path) (recursive : Bool)
+    (tree : List (Path × List Char)) (fs : Fs)
+    (nd : (tree.map fun e => pyJoin e.1 e.2).Nodup) (hfresh : Fresh fs outDir)
+    (hex : ∀ g ∈ discover root recursive tree, fs g ≠ none)
+    (e : Path × List Char) (he : e ∈ tree) (hs : Supported e.2) (hd : recursive = true ∨ e.1 = root)
+    (hstem : ∀ g ∈ discover root recursive tree, g ≠ pyJoin e.1 e.2 → stem g ≠ stem (pyJoin e.1 e.2))
+    (d : Bytes) (hl : T.loads (pyJoin e.1 e.2) (fs (pyJoin e.1 e.2)) = true)
+    (hr : T.render (pyJoin e.1 e.2) (fs (pyJoin e.1 e.2)) = .ok d) :
+    (mainRdf T outDir (outDir ++ '/' :: r) root recursive tree fs).1
+      (rdfOut (outDir ++ '/' :: r) (pyJoin e.1 e.2)) = some d :=
+  exportable_file_gets_rdf T outDir r _ fs (discover_nodup root recursive tree nd) hfresh hex _
+    (discover_complete root recursive tree e he hs hd) hstem d hl hr
+
+/-- … and an old-version file that converts alone to `d`, which exports to `d2`, has both outputs. -/
+theorem main_rdf_converted_file_gets_rdf (T : Tool) (outDir r root : Path) (recursive : Bool)
+    (tree : List (Path × List Char)) (fs : Fs)
+    (nd : (tree.map fun e => pyJoin e.1 e.2).Nodup) (hfresh : Fresh fs outDir)
+    (hex : ∀ g ∈ discover root recursive tree, fs g ≠ none)
+    (e : Path × List Char) (he : e ∈ tree) (hs : Supported e.2) (hd : recursive = true ∨ e.1 = root)
+    (hstem : ∀ g ∈ discover root recursive tree, g ≠ pyJoin e.1 e.2 → stem g ≠ stem (pyJoin e.1 e.2))
+    (d d2 : Bytes) (hl : T.loads (pyJoin e.1 e.2) (fs (pyJoin e.1 e.2)) = false)
+    (hc : T.convert (pyJoin e.1 e.2) (fs (pyJoin e.1 e.2)) = .ok (some d))
+    (hr : T.render (convOut outDir (pyJoin e.1 e.2)) (some d) = .ok d2) :
+    (mainRdf T outDir (outDir ++ '/' :: r) root recursive tree fs).1
+        (convOut outDir (pyJoin e.1 e.2)) = some d ∧
+    (mainRdf T outDir (outDir ++ '/' :: r) root recursive tree fs).1
+        (rdfOut (outDir ++ '/' :: r) (pyJoin e.1 e.2)) = some d2 :=
+  converted_file_gets_rdf T outDir r _ fs (discover_nodup root recursive tree nd) hfresh hex _
+    (discover_complete root recursive tree e he hs hd) hstem d d2 hl hc hr
+
+/-- Witness: odmltordf pointed at the directory an odmlconvert run has made (`out1/odmlconv_k3`), with
+    a sub-directory of the same kind: both files are taken up (`-r`), the top one without `-r`; a file
+    with another ending and a directory named `x.xml` are treated as the patterns say. -/
+theorem discover_tool_named_directories_witness :
+    discover "out1/odmlconv_k3".toList true
+      [("out1/odmlconv_k3".toList, "alpha_conv.xml".toList), ("out1/odmlconv_k3".toList, "notes.txt".toList),
+       ("out1/odmlconv_k3".toList, "x.xml".toList),
+       ("out1/odmlconv_k3/odmlconv_zz".toList, "beta.odml".toList)] =
+      ["out1/odmlconv_k3/odmlconv_zz/beta.odml".toList, "out1/odmlconv_k3/alpha_conv.xml".toList,
+       "out1/odmlconv_k3/x.xml".toList] ∧
+    discover "out1/odmlconv_k3".toList false
+      [("out1/odmlconv_k3".toList, "alpha_conv.xml".toList),
+       ("out1/odmlconv_k3/odmlconv_zz".toList, "beta.odml".toList)] =
+      ["out1/odmlconv_k3/alpha_conv.xml".toList] := by
+  decide
+
 end C17
